@@ -28,8 +28,28 @@ func VerifC16SetBytesLECanonical() {
 	vProtect(b, "input byte slice of SetBytesLECanonical")
 	z := c15elem("junk")
 	r, err := z.SetBytesLECanonical(b)
+	if !vSymbolic() {
+		// pool protocol, observable natively: an object put back twice is handed out twice
+		p1 := bigIntPool.Get().(*big.Int)
+		p2 := bigIntPool.Get().(*big.Int)
+		vAssert(p1 != p2, "sync.Pool protocol: the same object is put back twice (shared between two later Get calls)")
+	}
 	vNote("ok", err == nil)
 	vNote("retnil", r == nil)
+	vNote("z", z)
+	vReach("end")
+}
+
+// SetBigInt on a caller-owned integer: the result is the reduced value and the caller's integer is left as it was.
+func VerifC16SetBigInt() {
+	n := vParamInt("n")
+	b := vBytes("b", n)
+	var v, keep big.Int
+	v.SetBytes(b)
+	keep.Set(&v)
+	z := c15elem("junk")
+	z.SetBigInt(&v)
+	vAssert(v.Cmp(&keep) == 0, "SetBigInt leaves the caller's big.Int unchanged (input purity)")
 	vNote("z", z)
 	vReach("end")
 }
